@@ -11,7 +11,21 @@ def received_consumed(ctx, P, fam, wl, rule):
     by `batch.push(packet)` or `process_packet(&packet, ..)` of that very packet (must-pass-through)."""
     S = T.Slicer(wl, P)
     recvs = [(blk, t) for blk, t in wl.calls() if callee_of(t).endswith(RECV) and "Receiver" in callee_of(t)]
-    ctx.floor(rule, "%s: receive calls on the packet queue in worker_loop" % fam, len(recvs), 2)
+    # `batch.extend(rx.try_iter().take(k))`: the iterator form of the non-blocking fill - every packet it takes off the queue goes into
+    # the batch, provided nothing between the queue and `extend` drops items (only the bounding `take` is allowed)
+    iters = [(blk, t) for blk, t in wl.calls() if callee_of(t).endswith("::try_iter") and "Receiver" in callee_of(t)]
+    for k_, (ib, it_) in enumerate(iters):
+        fed, dropping = False, []
+        for blk, c in wl.calls():
+            if callee_of(c).endswith(("::extend", "::extend_from_slice")) and len(c["args"]) == 2:
+                src = Q.call_args(wl, S, blk, c)[1]
+                if any(x[0] == "call" and x[1] == callee_of(it_) and x[3] == ib for x in T.walk(src)):
+                    fed = True
+                    dropping = sorted({T.short(x[1]) for x in T.calls_in(src) if x[1].endswith(("::filter", "::filter_map", "::skip", "::skip_while", "::take_while", "::step_by", "::nth",
+                                                                                                       "::rev", "::map_while", "::scan", "::flat_map", "::zip", "::peekable", "::fuse"))})
+        ctx.check(fed and not dropping, rule, "%s:worker_loop:try_iter@%d:consumed" % (fam, k_), "every packet taken by try_iter() goes into the batch",
+                  "packets taken off the queue with try_iter() %s: they were reported Queued and are never analysed" % ("pass through " + ",".join(dropping) if dropping else "are not collected into the batch"), ctx.loc(wl, ib))
+    ctx.floor(rule, "%s: receive calls on the packet queue in worker_loop" % fam, len(recvs) + len(iters), 2)
     recv_blocks = {blk for blk, _ in recvs}
     rets = {i for i, blk in enumerate(wl.blocks) if blk["t"]["k"] == "return"}
     for k, (rb, t) in enumerate(recvs):
